@@ -15,6 +15,8 @@ import (
 func c07Alphabet(reduced bool) []string {
 	var out []string
 	out = append(out, "a", "1", `"s"`, "\n")
+	// comments are tokens too (the parser attaches them as meta data): with content, empty, to the end of the line
+	out = append(out, "/* c */", "/**/", "# c\n")
 	var kw, sy []string
 	for k := range parser.KeywordMap {
 		kw = append(kw, k)
